@@ -25,7 +25,9 @@ DIGEST = {
     "top": ("top", True, "top"), "TOP": ("top", True, "top"), "t\\op": ("t\\op", True, "top"),
     "left": ("left", True, "left"),
     "o\\\\x": ("o\\\\x", True, "o\\x"), "o\\x": ("o\\x", True, "ox"), "ox": ("ox", True, "ox"),
-    " color ": ("color", True, "color"),          # not canonical: looked up as ' color ' (known finding)
+    # accepted by the Property constructor but not canonical: look-ups go by normalize(raw), which no entry bears;
+    # setProperty replaces the entry they are stored as (fix C11-set-name-as-stored)
+    " color ": ("color", True, "color"), "\\43olor": ("color", True, "color"), "color/**/": ("color", True, "color"),
     "co lor": ("", False, None), "": ("", False, None),
 }
 PRIO = {"": "N", None: "N", "important": "I", "!important": "I", "IMPORTANT": "I", "x": "B"}
@@ -279,19 +281,47 @@ class Ref:
         self.l = [x for x in self.l if not (x[0] == "P" and x[2] == n)]
         return e[3] if e else ""
 
+    # literal-name mode (normalize=False): entries are selected by their literal name as stored
+    def effective_lit(self, l):
+        named = [e for e in self.props() if e[1] == l]
+        imp = [e for e in named if e[4]]
+        return (imp or named or [None])[-1]
+
+    def set_lit(self, nm, lit, n, v, imp, replace):
+        named = [e for e in self.props() if e[1] == nm] if replace else []
+        if named:
+            named[-1][3], named[-1][4] = v, imp      # the LAST entry of that literal name (set_literal_spec)
+        else:
+            self.l.append(["P", lit, n, v, imp])
+
+    def remove_lit(self, l):
+        e = self.effective_lit(l)
+        self.l = [x for x in self.l if not (x[0] == "P" and x[1] == l)]
+        return e[3] if e else ""
+
 
 WS_FAMILY = "set/get through a name spelling with surrounding whitespace"
 
 
+NONCANONICAL = (" color ", "\\43olor", "color/**/")
+
+
 def _canonical(raw):
     """a spelling whose look-up name (normalize(raw)) is the name the Property constructor gives it"""
-    return not isinstance(raw, str) or raw == raw.strip()
+    return raw not in NONCANONICAL
+
+
+def lookup_name(raw):
+    """the name a look-up (get / remove / in) with this spelling designates: the API contract makes spellings
+    equivalent up to case and simple escapes only, so a non-canonical or unparsable spelling designates a name
+    no entry bears"""
+    lit, nok, nn = digest(raw)
+    return nn if (nok and _canonical(raw)) else "\0" + raw
 
 
 def _oracle_step(style, ref, op, outcome, cssnames):
     """apply op to the reference, then compare every reporting method of the implementation with the
-    reference list.  Returns None, or a description.  Returns 'SKIP' when the op is outside the statement
-    (literal-name mode)."""
+    reference list (normalised and literal-name mode).  Returns None, or a description."""
     import css_parser
     k = op[0]
     before_nodup = ref.nodup()
@@ -310,25 +340,26 @@ def _oracle_step(style, ref, op, outcome, cssnames):
             raw, v, p, normalize, replace = op[2], op[3], (None if op[4] == "-" else op[4]), 1, 1
         else:
             raw, v, p, normalize, replace = op[2], op[3], op[4], op[5], op[6]
-        if not normalize:
-            return "SKIP"
         if raw is not None:
             lit, nok, nn = digest(raw)
             if k != "setp" and not v:
-                if nok or raw == "":
-                    expect_ret = ref.remove(nn) if nn is not None else ""
+                expect_ret = ref.remove(lookup_name(raw))
             elif nok and v in VALUES and not (PRIO[p] == "B" and bad):
                 if PRIO[p] == "B" and k != "setp" and op[1]:
                     return "unparsable priority accepted while raiseExceptions is on"
-                ref.set(nn, lit, v, PRIO[p] == "I", bool(replace))
-                setname = (raw, v, bool(replace))
+                if normalize:
+                    ref.set(nn, lit, v, PRIO[p] == "I", bool(replace))
+                    setname = (raw, v, bool(replace))
+                else:
+                    nm = lit if (k == "setp" or not _canonical(raw)) else raw
+                    ref.set_lit(nm, lit, nn, v, PRIO[p] == "I", bool(replace))
             # else: invalid name / value / (raising) priority: rejected, nothing changes
     elif k in ("rm", "di"):
         raw = op[1]
         if k == "rm" and not op[2]:
-            return "SKIP"
-        nn = digest(raw)[2]
-        expect_ret = ref.remove(nn) if nn is not None else ""
+            expect_ret = ref.remove_lit(raw)
+        else:
+            expect_ret = ref.remove(lookup_name(raw))
     elif k == "da":
         raw = cssnames.get(op[1])
         if raw is None:
@@ -385,6 +416,14 @@ def _oracle_step(style, ref, op, outcome, cssnames):
             return "getProperties(%r) is not [effective entry]" % sp
         if not same(style.getProperties(sp, all=True), [x for x in ref.props() if x[2] == nn]):
             return "getProperties(%r, all=True) is not the list of entries of that name" % sp
+    for sp in DIGEST:
+        e = ref.effective_lit(sp)
+        if style.getPropertyValue(sp, normalize=False) != (e[3] if e else "") or \
+                style.getPropertyPriority(sp, normalize=False) != ("important" if e and e[4] else ""):
+            return "literal mode: getPropertyValue/Priority(%r, normalize=False) is not the literal-effective entry %r" % (sp, e)
+    for sp in NONCANONICAL:
+        if style.getPropertyValue(sp) != "" or (sp in style) or style.getProperties(sp):
+            return "look-up through the non-canonical spelling %r found an entry" % sp
     for dom, c in cssnames.items():
         if c in ("color", "top", "left"):
             e = ref.effective(c)
@@ -397,12 +436,10 @@ def _oracle_step(style, ref, op, outcome, cssnames):
             return "attribute %s is not an alias of getPropertyValue(%r)" % (op[1] if k == "da" else op[2], raw)
     if setname and before_nodup and ref.nodup():
         raw, v, _ = setname
-        if style.getPropertyValue(raw) != v:
-            if not _canonical(raw):
-                return ("set/get through a name spelling with surrounding whitespace: getPropertyValue(%r) = %r "
-                        "after setting %r" % (raw, style.getPropertyValue(raw), v))
-            return "block without duplicate names: getPropertyValue(%r) = %r after setting %r" % (
-                raw, style.getPropertyValue(raw), v)
+        rd = raw if _canonical(raw) else digest(raw)[0]      # read back through the stored literal name
+        if style.getPropertyValue(rd) != v:
+            return "block without duplicate names: getPropertyValue(%r) = %r after setting %r through %r" % (
+                rd, style.getPropertyValue(rd), v, raw)
     # style.cssText re-parsed gives the same list
     css_parser.log.raiseExceptions = False
     back = _state(css_parser.parseStyle(style.cssText, validate=False))
@@ -467,7 +504,7 @@ def run_history(h):
 
 # ------------------------------------------------------------------------------------------------ generators
 CORE_NAMES = ["color", "C\\OLOR", "top"]
-PROBES = ["color", "COLOR", "c\\olor", "top", "t\\op", "left", "o\\\\x", "o\\x", "ox", " color ", "",
+PROBES = ["color", "COLOR", "c\\olor", "top", "t\\op", "left", "o\\\\x", "o\\x", "ox", " color ", "\\43olor", "",
           "fontStyle", "font-style", "overflowX", "overflow-x"]
 
 
@@ -485,6 +522,7 @@ def core_ops():
     ops.append(("set", 1, "c\\olor", "blue", "important", 0, 1))
     ops.append(("rm", "c\\olor", 0))
     ops.append(("st", 1, 0, (("D", "color", "red", 0), ("C", 1), ("D", "c\\olor", "blue", 1), ("D", "top", "1px", 0))))
+    ops.append(("set", 1, " color ", "green", "", 1, 1))
     return ops
 
 
@@ -500,7 +538,7 @@ def rand_op(rng, literal=True, weird=False):
     names = ["color", "COLOR", "c\\olor", "C\\OLOR", "top", "TOP", "t\\op", "left", "o\\\\x", "o\\x", "ox",
              "font-style", "overflow-x"]
     if weird:
-        names = names + [" color ", "co lor", ""]
+        names = names + [" color ", "\\43olor", "color/**/", "co lor", ""]
     raw = rng.choice(names)
     v = rng.choice(list(VALUES) + ["red", "blue"])
     r = rng.random()
